@@ -29,3 +29,90 @@ def run_design(c, prop):
         if inv not in r.violated:
             c.machinery_failure(f"vacuity: {cfg} (defect switched back on) did not violate {inv}: {r.summary()}")
         c.note(f"TLC {cfg}: {inv} violated as expected (the invariant is sensitive to the repaired defect)")
+
+
+# ----------------------------------------------------------------------------- spec -> code replay (DESIGN §13)
+
+REPLAY = {
+    "C04": ["dispatch", "callback"],
+    "C05": ["dispatch", "callback"],
+    "C06": ["lifecycle", "stoprace", "stopfirst", "doublestart"],
+    "C13": ["failing", "startrace", "doublestart"],
+}
+FULL_CFG = {"failing": "Observer_registry.cfg"}
+
+
+def _replay_job(args):
+    from checks import scen_observer_replay as sor
+
+    return sor.obs_replay(*args)
+
+
+def run_replay(c, prop):
+    """Walks of a transition cover of the dumped state graph of Observer.tla, replayed action by action on the real
+    BaseObserver with the projected state compared after every action.  Quick: the cover configurations (one event per
+    emitter), every walk; thorough: the configurations the invariants are checked on (two events per emitter), a seeded
+    sample.  The model's choice of the next handler of the copied set is restricted to the order the harness' handlers
+    hash in.  A divergence is drift (the model no longer describes this code), never a violation."""
+    import collections
+    import multiprocessing as mp
+    import os
+    import random
+    import shutil
+
+    from checks import scen_observer_replay as sor
+    from harness import tlagraph
+
+    tot_walks = tot_steps = tot_bad = tot_edges = 0
+    for fam in REPLAY.get(prop, []):
+        cfg, evs = (FULL_CFG.get(fam, f"Observer_{fam}.cfg"), 2) if c.thorough else (f"Observer_cover_{fam}.cfg", 1)
+        tmp = tlc.scratch_dir()
+        try:
+            dot = os.path.join(tmp, "o.dot")
+            r = tlc.run_tlc("Observer", cfg, workers=c.jobs, dump=dot, timeout=3000, heap="8g")
+            tlc.require_ok(r, f"cover model {cfg}")
+            g = tlagraph.load_dot(dot)
+        finally:
+            shutil.rmtree(tmp, ignore_errors=True)
+        keep = []
+        for a, b, lab in g.edges:
+            if lab.startswith("DIter"):
+                A, B = g.state(a), g.state(b)
+                if A["dleft"]:
+                    if min(set(A["dleft"]) - set(B["dleft"])) != min(A["dleft"]):
+                        continue
+            keep.append((a, b, lab))
+        pruned = len(g.edges) - len(keep)
+        g.edges = keep
+        g.out = collections.defaultdict(list)
+        for a, b, lab in keep:
+            g.out[a].append((b, lab))
+        walks, nedges = tlagraph.transition_cover(g, max_len=60, skip_labels=("Finished",))
+        limit = 12000 if c.thorough else 4000
+        if len(walks) > limit:
+            random.Random(c.seed).shuffle(walks)
+            walks = walks[:limit]
+        jobs = []
+        for root, walk in walks:
+            acts = [tlagraph.parse_label(lab) for lab, _ in walk]
+            states = [{k: g.state(n)[k] for k in sor.STATE_KEYS} for _, n in walk]
+            init = {k: g.state(root)[k] for k in sor.STATE_KEYS}
+            jobs.append((fam, acts, states, init, evs))
+        del g
+        with mp.get_context("fork").Pool(c.jobs) as pool:
+            res = pool.map(_replay_job, jobs, chunksize=25)
+        bad = [(j, mm) for j, mm in zip(jobs, res) if mm is not None]
+        for j, mm in bad[:2]:
+            c.note(f"spec->code drift ({fam}): {str(mm)[:400]} after {[a[0] for a in j[1]][:mm.get('k', 0) + 1][-8:]}")
+        steps = sum(len(j[1]) for j in jobs)
+        c.note(f"spec->code {cfg}: {len(jobs)} walks ({steps} steps) of a transition cover of {nedges} edges "
+               f"({pruned} handler-order edges pruned) replayed on the real BaseObserver, {len(bad)} diverged")
+        tot_walks += len(jobs)
+        tot_steps += steps
+        tot_bad += len(bad)
+        tot_edges += nedges
+    c.cov["model_edges"] = c.cov.get("model_edges", 0) + tot_edges
+    c.cov["walks_replayed"] = c.cov.get("walks_replayed", 0) + tot_walks
+    c.cov["model_edges_replayed"] = c.cov.get("model_edges_replayed", 0) + tot_steps
+    c.cov["drift_traces"] = c.cov.get("drift_traces", 0) + tot_bad
+    c.cov["evaluations"] += tot_walks
